@@ -294,7 +294,9 @@ def run_ob(ob, scratch):
         elif real:
             ob.failed_desc = [d for k, d in real]
             k, d = real[0]
-            extra = ["--trace", "--property", k] if not ob.paths else ["--trace"]
+            # --paths: restrict to the failed property as well (otherwise the traces of the reachability witnesses are mixed in)
+            # and stop at the first path that violates it
+            extra = ["--trace", "--property", k] if not ob.paths else ["--trace", "--property", k, "--stop-on-fail"]
             # the trace run must not slice: --slice-formula removes the (write-only) nd log h_nd_vals[] from the trace
             rc2, out2, dt2 = run([c for c in cbmc_cmd(ob, gb, extra) if c != "--slice-formula"], ob.timeout * 2, ob.mem_gb)
             ob.solver_s += dt2
@@ -421,8 +423,9 @@ def finish(prop_id, tier, obs, level, meta, t_start, scratch, extra_cov=None):
     ev = {"property_id": prop_id, "tier": tier, "seed": seed, "level": level, "coverage": cov,
           "assumptions": meta.get("assumptions", []), "wall_s": round(time.time() - t_start, 1),
           "violations": len(violations)}
-    os.makedirs(os.path.join(VERIF, "evidence"), exist_ok=True)
-    with open(os.path.join(VERIF, "evidence", prop_id + ".json"), "w") as f:
+    evdir = os.environ.get("VERIF_EVIDENCE_DIR") or os.path.join(VERIF, "evidence")  # mutation runs write elsewhere
+    os.makedirs(evdir, exist_ok=True)
+    with open(os.path.join(evdir, prop_id + ".json"), "w") as f:
         json.dump(ev, f, indent=1)
     print("SUMMARY property=%s tier=%s obligations=%d held=%d known=%d inconclusive=%d violations=%d wall=%.0fs"
           % (prop_id, tier, len(obs), len(held), len(knownhits), len(inconcl), len(violations), time.time() - t_start))
